@@ -38,7 +38,7 @@ def _signal(lock):
         pass
 
 
-WATCHDOG_S = 60.0
+WATCHDOG_S = 300.0  # generous: checks may share the machine with others
 STEP_LIMIT = 20000  # per execution; directed runs on long streams use STEP_LIMIT_DIRECTED
 STEP_LIMIT_DIRECTED = 120000  # directed runs on long streams (a livelock is reported, well before the watchdog)
 
